@@ -933,6 +933,19 @@ def _run_entry(ctx, rng, pub):
             if not sv:
                 lines.append(f"curve.mult secp256k1 1 7 {atok(Q)}")
                 lines.append(f"curve.dmult secp256k1 2 {atok(ec.G)} 3 {atok(Q)}")
+    # scalars that are non-zero multiples of n reduce to 0: the term drops out, under both backends
+    for _ in range(ctx.n(4, 40)):
+        P, P2 = _rand_point(rng, ec), _rand_point(rng, ec)
+        for ss in ([ec.n, 5], [3, 2 * ec.n], [-ec.n, ec.n], [ec.n, rng.randrange(1, ec.n), 7 * ec.n]):
+            Ps = [P, P2, ec.G][: len(ss)]
+            lines.append(f"curve.mmult secp256k1 {ltok(ss)} {ltok(Ps, atok)}")
+            for sv in (False, True) if C._bindings_installed else (False,):
+                ctx.check("mmult.grouplaw", {"curve": "secp256k1", "scalars": ss, "points": [list(Q) for Q in Ps],
+                                             "serving": sv}, key="mmult.multiple_of_n")
+            if len(ss) == 2:
+                lines.append(f"curve.dmult secp256k1 {ss[0]} {atok(Ps[0])} {ss[1]} {atok(Ps[1])}")
+                ctx.check("mmult.grouplaw", {"curve": "secp256k1", "scalars": ss, "points": [list(Q) for Q in Ps],
+                                             "serving": True, "kind": "dmult"}, key="dmult.multiple_of_n")
     for tok, ss, aff in pub:
         if tok == "secp256k1":
             lines.append(f"curve.mmult secp256k1 {ltok(ss)} {ltok(aff, atok)}")
@@ -1050,6 +1063,7 @@ def _run_nt(ctx, rng):
     for p in sp + cat_p:
         small = p < 200
         rs = range(p) if small else [0, 1, 2, 3, 4, p - 1, p - 2] + [rng.randrange(p) for _ in range(6)] + [rng.randrange(p) ** 2 % p for _ in range(6)]
+        rs = list(rs) + [p, 2 * p, -p, p + 4, -1, p * p + 1 if small else 9 * p]
         for a in rs:
             sq.append(f"nt.sqrt {a} {p}")
             sq.append(f"nt.tonelli {a} {p}")
